@@ -219,7 +219,21 @@ def classify(body):
                         if rel in ("eq", "gt"):
                             val = (rel == "eq") if rv["op"] == "Eq" else (rel != "eq")
                             pruned = 1 if val else 0
-                if pruned is not None:
+                retry_edge = None
+                if pruned is None and si["kind"] == "bool" and dl is not None and not t["discr"]["p"]["proj"]:
+                    # `if stolen.is_retry() { continue }`: the bool form of the Retry arm
+                    from .table import bool_origin
+                    o = bool_origin(du, dl)
+                    if o is not None and norm(body.blocks[o[0]]["term"].get("callee") or "") == "crossbeam_deque::Steal::is_retry":
+                        want = 0 if o[1] else 1
+                        listed = [bb for v, bb in t["targets"] if int(v) == want]
+                        other = [bb for v, bb in t["targets"] if int(v) != want]
+                        retry_edge = listed[0] if listed else (t["otherwise"] if other else None)
+                if retry_edge is not None:
+                    rep.kinds.add("retry")
+                    for bb in term_succs(t):
+                        succs.append((bb, True if bb == retry_edge else progress, rels))
+                elif pruned is not None:
                     tgt = None
                     for v, bb in t["targets"]:
                         if int(v) == pruned:
